@@ -1,14 +1,14 @@
 /-
   SparseV.Model.GcxsIndex — GCXS indexing (`_compressed/indexing.py`, helpers of `_compressed/convert.py`).
 
-  * `arrayRow` / `arraySelection`   — `get_array_selection` (indexing.py 270-296): one binary search per requested column
-  * `slicingSelection`              — `get_slicing_selection` (indexing.py 207-267): the fuel model of `SparseV.Loops`
+  * `arrayRow` / `arraySelection`   — `get_array_selection` (indexing.py 286-312): one binary search per requested column
+  * `slicingSelection`              — `get_slicing_selection` (indexing.py 223-283): the fuel model of `SparseV.Loops`
                                       (linear filter / binary search with a shrinking window), whose termination and
                                       memory safety are property C18's theorems; here its VALUE is used
   * `convertToFlat`                 — `convert_to_flat` + `compute_flat` + `transform_shape` (convert.py 13-78)
   * `isSortedArr`                   — `is_sorted` (convert.py 90-101)
-  * `GCXS.getitemCore`              — `_getitem` (indexing.py 64-204) for a normalised key without `None`,
-                                      `get_single_element` (indexing.py 299-313) included
+  * `GCXS.getitemCore`              — `_getitem` (indexing.py 67-220) for a normalised key without `None`,
+                                      `get_single_element` (indexing.py 315-329) included
   Core Lean only (linked into `svdriver`).
 -/
 import SparseV.Model.Gcxs
